@@ -55,22 +55,175 @@ theorem applyWrites_pythiaStage (cfg : Cfg) (op0 : SugOp) (st : Study) (need : N
     · rw [applyWrites_cons]
       exact applyWrites_createStage cfg op0 _ need out _
 
-/-- CONSISTENCY: replaying all datastore writes of `SuggestTrials` gives exactly the state M1 computes -/
+/-- the write list of `suggestRest` replays to `suggestRest`'s final state (any operation record, any study) -/
+theorem applyWrites_suggestRest (cfg : Cfg) (op0 : SugOp) (st : Study) (client : String) (count : Nat)
+    (alg : AlgOutcome) :
+    applyWrites cfg st (suggestRestWrites cfg op0 st client count alg) = (suggestRest cfg op0 st client count alg).2 := by
+  unfold suggestRestWrites suggestRest
+  simp only
+  by_cases h1 : (List.filter (fun t => t.state == TState.active && t.client == client) st.trials).length ≥ count
+  · simp only [h1, if_true]; rfl
+  · simp only [h1, if_false]
+    rw [applyWrites_append, applyWrites_putTrials]
+    split
+    · rfl
+    · exact applyWrites_pythiaStage cfg _ _ _ _ alg
+
+/-- CONSISTENCY: replaying all datastore writes of `SuggestTrials` gives exactly the state M1 computes
+    (fresh operation, resumed operation, or the pinned commit's unchanged abandoned operation) -/
 theorem applyWrites_suggest (cfg : Cfg) (st : Study) (client : String) (count : Nat) (alg : AlgOutcome) :
     applyWrites cfg st (suggestWrites cfg st client count alg) = (suggestBody cfg st client count alg).2 := by
   unfold suggestWrites suggestBody
   simp only
   cases hfind : (opsOf st client).find? (fun o => !o.done) with
-  | some o => rfl
+  | some o =>
+    simp only
+    split
+    · exact applyWrites_suggestRest cfg _ st client count alg
+    · rfl
   | none =>
     simp only
-    by_cases h1 : (List.filter (fun t => t.state == TState.active && t.client == client) st.trials).length ≥ count
-    · simp only [h1, if_true]; rfl
-    · simp only [h1, if_false]
-      rw [applyWrites_append, applyWrites_cons, applyWrites_putTrials]
-      simp only [Write.apply]
-      split
+    rw [applyWrites_cons]
+    exact applyWrites_suggestRest cfg _ _ client count alg
+
+/-! ### unfinished operations under a crash -/
+
+/-- number of unfinished operations of worker `c` -/
+def pendingOf (st : Study) (c : String) : Nat := ((opsOf st c).filter (fun o => !o.done)).length
+
+theorem pendingOf_congr {st st' : Study} (h : st'.sugOps = st.sugOps) (c : String) : pendingOf st' c = pendingOf st c := by
+  unfold pendingOf opsOf; rw [h]
+
+/-- `update_suggestion_operation` with a finished record never adds an unfinished operation -/
+theorem pendingOf_putOp_le (st : Study) (o : SugOp) (ho : o.done = true) (c : String) :
+    pendingOf (st.putOp o) c ≤ pendingOf st c := by
+  unfold pendingOf opsOf Study.putOp
+  simp only [List.filter_filter, ← List.countP_eq_length_filter, List.countP_map]
+  apply List.countP_mono_left
+  intro x _ hx
+  simp only [Function.comp] at hx
+  by_cases hm : (x.client == o.client && x.num == o.num) = true
+  · simp [hm, ho] at hx
+  · simpa [hm] using hx
+
+/-- writes that cannot add an unfinished operation: everything except `create_suggestion_operation`
+    and `update_suggestion_operation` with an unfinished record -/
+def Write.keepsPending : Write → Bool
+  | .createOp _ => false
+  | .putOp o => o.done
+  | _ => true
+
+theorem pendingOf_apply_le (cfg : Cfg) (st : Study) (w : Write) (hw : w.keepsPending = true) (c : String) :
+    pendingOf (w.apply cfg st) c ≤ pendingOf st c := by
+  cases w with
+  | createOp o => cases hw
+  | putOp o => exact pendingOf_putOp_le st o hw c
+  | putTrial t => exact Nat.le_of_eq (pendingOf_congr rfl c)
+  | addTrial t => exact Nat.le_of_eq (pendingOf_congr rfl c)
+  | delTrial id => exact Nat.le_of_eq (pendingOf_congr rfl c)
+  | metadata us => exact Nat.le_of_eq (pendingOf_congr (updateMetadata_sugOps cfg st us) c)
+  | putEsOp o => exact Nat.le_of_eq (pendingOf_congr (putEsOp_sugOps st o) c)
+  | setState s => exact Nat.le_of_eq (pendingOf_congr rfl c)
+
+theorem pendingOf_applyWrites_le (cfg : Cfg) (st : Study) (ws : List Write) (hws : ∀ w ∈ ws, w.keepsPending = true)
+    (c : String) : pendingOf (applyWrites cfg st ws) c ≤ pendingOf st c := by
+  induction ws generalizing st with
+  | nil => exact Nat.le_refl _
+  | cons w ws ih =>
+    rw [applyWrites_cons]
+    exact Nat.le_trans (ih _ (fun x hx => hws x (List.mem_cons_of_mem _ hx)))
+      (pendingOf_apply_le cfg st w (hws w List.mem_cons_self) c)
+
+theorem keepsPending_createWrites (cfg : Cfg) (op0 : SugOp) (st : Study) (need : Nat) (out : List Trial)
+    (sugg : List Sugg) : ∀ w ∈ createWrites cfg op0 st need out sugg, w.keepsPending = true := by
+  unfold createWrites
+  simp only
+  intro w hw
+  split at hw
+  · obtain ⟨t, _, rfl⟩ := List.mem_map.mp hw; rfl
+  · rcases List.mem_append.mp hw with hw | hw
+    · rcases List.mem_append.mp hw with hw | hw
+      · obtain ⟨t, _, rfl⟩ := List.mem_map.mp hw; rfl
+      · obtain ⟨t, _, rfl⟩ := List.mem_map.mp hw; rfl
+    · simp only [List.mem_singleton] at hw; subst hw; rfl
+
+theorem keepsPending_pythiaWrites (cfg : Cfg) (op0 : SugOp) (st : Study) (need : Nat) (out : List Trial)
+    (alg : AlgOutcome) : ∀ w ∈ pythiaWrites cfg op0 st need out alg, w.keepsPending = true := by
+  unfold pythiaWrites
+  intro w hw
+  split at hw
+  · simp only [List.mem_singleton] at hw; subst hw; rfl
+  · split at hw
+    · simp only [List.mem_singleton] at hw; subst hw; rfl
+    · cases hw
+  · simp only at hw
+    split at hw
+    · simp only [List.mem_cons, List.not_mem_nil, or_false] at hw
+      rcases hw with rfl | rfl <;> rfl
+    · rcases List.mem_cons.mp hw with rfl | hw
       · rfl
-      · exact applyWrites_pythiaStage cfg _ _ _ _ alg
+      · exact keepsPending_createWrites cfg op0 _ need out _ w hw
+
+theorem keepsPending_suggestRestWrites (cfg : Cfg) (op0 : SugOp) (st : Study) (client : String) (count : Nat)
+    (alg : AlgOutcome) : ∀ w ∈ suggestRestWrites cfg op0 st client count alg, w.keepsPending = true := by
+  unfold suggestRestWrites
+  simp only
+  intro w hw
+  split at hw
+  · simp only [List.mem_singleton] at hw; subst hw; rfl
+  · rcases List.mem_append.mp hw with hw | hw
+    · obtain ⟨t, _, rfl⟩ := List.mem_map.mp hw; rfl
+    · split at hw
+      · simp only [List.mem_singleton] at hw; subst hw; rfl
+      · exact keepsPending_pythiaWrites cfg op0 _ _ _ alg w hw
+
+theorem pendingOf_createOp (st : Study) (o : SugOp) (c : String) :
+    pendingOf { st with sugOps := st.sugOps ++ [o] } c =
+      pendingOf st c + (if o.client == c && !o.done then 1 else 0) := by
+  unfold pendingOf
+  rw [opsOf_append]
+  by_cases hc : (o.client == c) = true
+  · by_cases hd : o.done = true <;> simp [hc, hd, List.filter_append]
+  · simp [hc]
+
+/-- **at most one abandoned operation per worker**: a worker with at most one unfinished operation has at
+    most one in every state a crash inside ANY `SuggestTrials` call (of any worker) can leave — a fresh
+    call creates one record only when the asking worker has none, a resumed call creates none -/
+theorem crash_at_most_one_pending (cfg : Cfg) (st : Study) (client : String) (count : Nat) (alg : AlgOutcome)
+    (c : String) (h : pendingOf st c ≤ 1) (k : Nat) :
+    pendingOf (applyWrites cfg st ((suggestWrites cfg st client count alg).take k)) c ≤ 1 := by
+  unfold suggestWrites
+  simp only
+  cases hfind : (opsOf st client).find? (fun o => !o.done) with
+  | some o =>
+    simp only
+    refine Nat.le_trans (pendingOf_applyWrites_le cfg st _ ?_ c) h
+    intro w hw
+    have hw := List.mem_of_mem_take hw
+    split at hw
+    · exact keepsPending_suggestRestWrites cfg _ st client count alg w hw
+    · cases hw
+  | none =>
+    simp only
+    cases k with
+    | zero => simpa using h
+    | succ k =>
+      rw [List.take_succ_cons, applyWrites_cons]
+      refine Nat.le_trans (pendingOf_applyWrites_le cfg _ _ ?_ c) ?_
+      · intro w hw
+        exact keepsPending_suggestRestWrites cfg _ _ client count alg w (List.mem_of_mem_take hw)
+      · show pendingOf { st with sugOps := st.sugOps ++ [_] } c ≤ 1
+        rw [pendingOf_createOp]
+        by_cases hc : (client == c) = true
+        · have e : client = c := by simpa using hc
+          subst e
+          have h0 : pendingOf st client = 0 := by
+            unfold pendingOf
+            rw [List.length_eq_zero_iff, List.filter_eq_nil_iff]
+            intro x hx
+            exact List.find?_eq_none.mp hfind x hx
+          simp [h0]
+        · simp only [hc, Bool.false_and, Bool.false_eq_true, if_false]
+          exact h
 
 end VizierModel.Svc
